@@ -9,9 +9,9 @@ use hifitime::{Duration, Epoch, TimeScale, Unit};
 
 pub fn meta() -> Meta {
     Meta {
-        rule: "events = for one epoch (all nine scales, within +-10000 y of 1900): the duration-valued views to_jde_{tai,utc,tt}_duration, to_mjd_tt_duration, to_tt_since_j2k, and ~45 float-valued views (to_{mjd,jde}_{tai,utc}_{days,seconds,(unit)}, to_tt_*, to_jde_tt_days, to_mjd_tt_days, to_tt_centuries_j2k, to_{tai,utc,gpst,qzsst,gst,bdt}_{seconds,days}, to_unix{,_seconds,_milliseconds,_days}); and build-then-read: from_mjd_{tai,utc}, from_jde_{tai,utc}, from_unix_{seconds,milliseconds,duration}. Expected: model reading (M-SCALE) + constant (15020 d; +2400000.5 d; -3155716800 s; UNIX = UTC count - 2208988800 s) exactly for durations; floats within 8 ulp of max(|exact|, one second in that unit) decided exactly against the rational; build-then-read within 8 ulp + 1 ns of the input. ET/TDB epochs: 30 ns tolerance. TAI instants without UTC pre-image: don't-care. Generation: reading lattice incl. leap seconds + stratified random readings; finite JD/MJD/UNIX inputs over the same span incl. values near zero and half-integers. Non-trivial = negative reading, UTC view within 41 s of a leap second, |view| < 1 s, input half-integer; distinct = distinct (reading, scale) / input hashes among those.",
+        rule: "events = for one epoch (all nine scales, within +-10000 y of 1900): the duration-valued views to_jde_{tai,utc,tt}_duration, to_mjd_tt_duration, to_tt_since_j2k, and ~45 float-valued views (to_{mjd,jde}_{tai,utc}_{days,seconds,(unit)}, to_tt_*, to_jde_tt_days, to_mjd_tt_days, to_tt_centuries_j2k, to_{tai,utc,gpst,qzsst,gst,bdt}_{seconds,days}, to_unix{,_seconds,_milliseconds,_days}); and build-then-read: from_mjd_{tai,utc}, from_jde_{tai,utc}, from_unix_{seconds,milliseconds,duration}, plus from_mjd_* / from_jde_* / from_{mjd,jde}_in_time_scale in TAI, UTC, TT and the four GNSS scales (value only: the epoch denotes (x - origin) days on the own calendar of that scale). Expected: model reading (M-SCALE) + constant (15020 d; +2400000.5 d; -3155716800 s; UNIX = UTC count - 2208988800 s) exactly for durations; floats within 8 ulp of max(|exact|, one second in that unit) decided exactly against the rational; build-then-read within 8 ulp + 1 ns of the input. ET/TDB epochs: 30 ns tolerance. TAI instants without UTC pre-image: don't-care. Generation: reading lattice incl. leap seconds + stratified random readings; finite JD/MJD/UNIX inputs over the same span incl. values near zero and half-integers. Non-trivial = negative reading, UTC view within 41 s of a leap second, |view| < 1 s, input half-integer; distinct = distinct (reading, scale) / input hashes among those.",
         assumptions: &["'a few ulp' = 8"],
-        mandatory: &["view/negative-reading", "view/utc-near-leap", "view/dyn-scale", "build/mjd", "build/jde", "build/unix", "build/half-integer"],
+        mandatory: &["view/negative-reading", "view/utc-near-leap", "view/dyn-scale", "build/mjd", "build/jde", "build/unix", "build/half-integer", "build/in-time-scale"],
         thorough_scale: 40,
         exhaustive_part: "reading lattice x nine scales x all views",
     }
@@ -247,6 +247,53 @@ pub fn check_build(rep: &mut Rep, kind: u8, x: f64) {
     }
 }
 
+/// MJD / JDE constructors in every time scale: the epoch denotes (x - origin) days on that scale's own calendar
+pub fn check_build_in_scale(rep: &mut Rep, jde: bool, x: f64, s: TimeScale) {
+    if !rep.tick() {
+        return;
+    }
+    rep.class(if jde { "build/jde" } else { "build/mjd" });
+    rep.class("build/in-time-scale");
+    rep.nt(h64(&[3, jde as u64, x.to_bits(), scale_idx(s)]));
+    let origin = if jde { 15020.0 + 2_400_000.5 } else { 15020.0 };
+    let unit = NS_D as f64;
+    let want = ((x - origin) * unit) as i128 - greg_zero_ns(s);
+    let tol_ns = ((8.0 * flt::ulp(x.abs().max((x - origin).abs()).max(1e9 / unit)) + 1.0 / unit) * unit).ceil() as i128 + 2;
+    let nm = if jde { "jde" } else { "mjd" };
+    rep.sample("build/in-time-scale", || format!("from_{nm}_in_time_scale({}, {:?}) => reading {} +- {}", fmt_f64(x), s, want, tol_ns));
+    let r = guard(|| {
+        let generic = if jde { Epoch::from_jde_in_time_scale(x, s) } else { Epoch::from_mjd_in_time_scale(x, s) };
+        let named = match (jde, s) {
+            (false, TimeScale::TAI) => Some(Epoch::from_mjd_tai(x)),
+            (false, TimeScale::UTC) => Some(Epoch::from_mjd_utc(x)),
+            (false, TimeScale::GPST) => Some(Epoch::from_mjd_gpst(x)),
+            (false, TimeScale::QZSST) => Some(Epoch::from_mjd_qzsst(x)),
+            (false, TimeScale::GST) => Some(Epoch::from_mjd_gst(x)),
+            (false, TimeScale::BDT) => Some(Epoch::from_mjd_bdt(x)),
+            (true, TimeScale::TAI) => Some(Epoch::from_jde_tai(x)),
+            (true, TimeScale::UTC) => Some(Epoch::from_jde_utc(x)),
+            (true, TimeScale::GPST) => Some(Epoch::from_jde_gpst(x)),
+            (true, TimeScale::QZSST) => Some(Epoch::from_jde_qzsst(x)),
+            (true, TimeScale::GST) => Some(Epoch::from_jde_gst(x)),
+            (true, TimeScale::BDT) => Some(Epoch::from_jde_bdt(x)),
+            _ => None,
+        };
+        (generic, named)
+    });
+    match r {
+        Err(p) => rep.fail(&format!("build-in-scale/panic/{}", p.class()), None, || format!("from_{nm}_in_time_scale({}, {:?}) panicked: {}", fmt_f64(x), s, p.msg)),
+        Ok((g, named)) => {
+            for (name, e) in [("generic", Some(g)), ("named", named)] {
+                if let Some(e) = e {
+                    if e.time_scale != s || (count_d(e.duration) - want).abs() > tol_ns {
+                        rep.fail(&format!("build-in-scale/value/{nm}"), None, || format!("{name} from_{nm}({}, {:?}) = ({}, {:?}) want {} +- {} [off by {} ns]", fmt_f64(x), s, count_d(e.duration), e.time_scale, want, tol_ns, count_d(e.duration) - want));
+                    }
+                }
+            }
+        }
+    }
+}
+
 pub fn run(cfg: &Cfg, rep: &mut Rep) {
     let sh = rep.shard as usize;
     let n = NSHARDS as usize;
@@ -307,6 +354,10 @@ pub fn run(cfg: &Cfg, rep: &mut Rep) {
                 _ => x,
             };
             check_build(rep, kind, x);
+            if kind <= 3 {
+                let s2 = *r.pick(&[TimeScale::TAI, TimeScale::UTC, TimeScale::TT, TimeScale::GPST, TimeScale::QZSST, TimeScale::GST, TimeScale::BDT]);
+                check_build_in_scale(rep, kind >= 2, x, s2);
+            }
         }
     }
 }
